@@ -96,6 +96,10 @@ func partSched(r *ev.Run, v *violSet) {
 			if vi.Key == "nondeterministic" || vi.Key == "replay-divergence" {
 				r.Broken("sched part: %s: %s", vi.Key, vi.What)
 			}
+			if strings.Contains(vi.What, "is not modelled") {
+				// a construct the scheduler does not model: no verdict possible
+				r.Broken("part (d): %s: %s", vi.Key, vi.What)
+			}
 			r.Violation(vi.Key, vi.What, map[string]interface{}{"part": "d", "sched": vi.Replay})
 		}
 	}
